@@ -28,7 +28,18 @@ C03(o) ==
 N(o) == Len(o.nodes)
 Node(o, i) == o.nodes[i + 1]
 InRange(o, i) == i >= 0 /\ i < N(o)
-Live(o) == { i \in 0..(N(o) - 1) : Node(o, i).d # "Drop" }
+\* A separator directly before a closing bracket is redundant: the parser's end-of-group fix-up unlinks its node (the node stays
+\* in the table with stale links, referenced by nobody).  Such a node is not part of the tree the property speaks about.
+Blank == {"Whitespace", "Annotation", "LineAnnotation"}
+Closers == {"EndGroup", "EndExpression", "EndSideEffect"}
+TokOf(o, i) == { k \in DOMAIN o.toks : o.toks[k].row = Node(o, i).row /\ o.toks[k].col = Node(o, i).col }
+ClosesNext(o, k) == LET later == { j \in DOMAIN o.toks : j > k /\ o.toks[j].ty \notin Blank \cup {"Subexpression"} } IN
+                    later = {} \/ o.toks[CHOOSE j \in later : \A j2 \in later : j <= j2].ty \in Closers
+UnlinkedSeparator(o, i) == /\ Node(o, i).d = "Subexpression"
+                           /\ i # o.root
+                           /\ \A j \in 0..(N(o) - 1) : Node(o, j).l # i /\ Node(o, j).r # i
+                           /\ \E k \in TokOf(o, i) : ClosesNext(o, k)
+Live(o) == { i \in 0..(N(o) - 1) : Node(o, i).d # "Drop" /\ ~UnlinkedSeparator(o, i) }
 ChildLinksOK(o) == \A i \in Live(o) :
    /\ (Node(o, i).l >= 0 => InRange(o, Node(o, i).l) /\ Node(o, Node(o, i).l).p = i)
    /\ (Node(o, i).r >= 0 => InRange(o, Node(o, i).r) /\ Node(o, Node(o, i).r).p = i)
